@@ -233,6 +233,26 @@ def run_case(case, w):
             if freeze(obj) != was:
                 bad.append(("net:earlier-result-rewritten-by-a-later-call", "the dict returned at step %d was %r and is now %r" % (step, was, freeze(obj))))
         psutil.net_io_counters.cache_clear()
+    elif k == "net-flap":
+        # default form (nowrap=True), ONE form per history: an interface that comes and goes and whose counters may restart lower
+        # (tun0 / ppp0 / a re-plugged dongle).  No call may fail, and an interface listed now but not in the previous call
+        # reports exactly the kernel's counters
+        form, seq = case[1], case[2]
+        psutil.net_io_counters.cache_clear()
+        prev = None
+        for step, v in enumerate(seq):
+            ifs = [("lo", [50 + step + j for j in range(16)])] + ([("tun0", [v + j for j in range(16)])] if v is not None else [])
+            w.set_file("/proc/net/dev", net_file(ifs))
+            got = outcome(psutil.net_io_counters, pernic=form)
+            if got[0] != "ok":
+                bad.append(("net:flapping-interface:raised:%s" % got[1], "step %d of %r (pernic=%s): %r" % (step, seq, form, got)))
+                break
+            if v is not None and prev is None and step > 0 and form:
+                exp = {f: [v + j for j in range(16)][NET_MAP[f]] for f in NET_FIELDS}
+                if rec(got[1].get("tun0"), NET_FIELDS) != exp if "tun0" in got[1] else True:
+                    bad.append(("net:flapping-interface:re-created", "step %d of %r: got %r expected %r" % (step, seq, freeze(got[1].get("tun0")), exp)))
+            prev = v
+        psutil.net_io_counters.cache_clear()
     elif k == "disk-useq":
         # same for disk_io_counters(): whole disks appear / disappear between default-form calls
         psutil.disk_io_counters.cache_clear()
@@ -304,6 +324,12 @@ def build_cases(thorough):
             for c in (sets if thorough else sets[:3]):
                 for pf in (False, True):
                     cases.append(("net-seq", [(a, pf), (b, False), (c, pf)]))
+    for n in range(3, 7 if thorough else 6):
+        for seq in itertools.product((None, 100, 1000), repeat=n):
+            if seq[0] is None or None not in seq:
+                continue
+            for form in (True, False):
+                cases.append(("net-flap", form, list(seq)))
     cases.append(("net-many", 600))
     cases.append(("disk-many", 500))
     for a, b in (("ppp0", "ppp1"), ("eth0:1", "eth0"), ("wlp0s20f3", "a.b")):
